@@ -201,10 +201,38 @@ def check_pair(ctx, cell, case):
         ctx.fail("C09.link", cell, {**case, **extra}, np.rint(out[i]).astype(int).tolist(), M[i].astype(int).tolist(),
                  "the coded, modulated link does not return the transmitted message over this channel", CHK)
         ctx.fail_total += len(bad) - 1
+    if soft and positional_ok([enc, mod, channel, dem, dec]):
+        # the pipeline documents that extra positional arguments are handed to every step: the demodulator's noise variance given
+        # positionally must produce the same transmission as the keyword form
+        mc.reset(mod, dem)
+        with quiet():
+            ok, out2 = ctx.call(lambda: model(x, 1.0), "C09.raises", {**cell, "call_style": "positional"}, {**case, "flips": flips_used, "call_style": "positional"}, checker=CHK)
+        if ok:
+            out2 = (out2[0] if isinstance(out2, tuple) else out2).detach().numpy()
+            ctx.ev(len(M))
+            ctx.cls("call_style_positional")
+            ctx.check(out2.shape == M.shape and np.array_equal(np.rint(out2), M), "C09.link", {**cell, "call_style": "positional"}, {**case, "call_style": "positional"}, None, None,
+                      "the link does not return the message when the demodulator's noise variance is passed as the pipeline's positional argument", CHK)
     ctx.cls("pipelines_" + chan)
     ctx.cls("path_" + ("soft" if soft else "hard"))
     if len(ctx.samples) < 2:
         ctx.sample({"cell": cell, "messages": int(len(M)), "blocks_per_message": m, "symbols": int(nsym)})
+
+
+def positional_ok(steps):
+    """True when a second positional pipeline argument means 'noise_var' (or is ignored) for every step, judged from the forward signatures:
+    e.g. the SC decoder's second positional parameter is return_for_loss, so the positional style is not a valid call for links that use it."""
+    import inspect
+    for st_ in steps:
+        fwd = getattr(st_, "forward", st_)
+        ps = [p for p in inspect.signature(fwd).parameters.values()]
+        if len(ps) < 2:
+            return False
+        p2 = ps[1]
+        if p2.kind == inspect.Parameter.VAR_POSITIONAL or p2.name == "noise_var":
+            continue
+        return False
+    return True
 
 
 def check_reuse(ctx, cell, case):
